@@ -176,7 +176,7 @@ macro_rules! write_case {
                         // progress: allowed only if something had been delivered before
                         assert!(fail_at > 0, "an error at the first inner write is never turned into success");
                     }
-                    kani::cover!(n < $n && n > 0);
+                    kani::cover!((n < $n && n > 0) || $n < 2);
                     kani::cover!(n == $n && script.out.len == $n);
                     kani::cover!(n == 0);
                 }
